@@ -27,6 +27,22 @@ fn jig(g: &mut Sm64, x: f64, eps: f64) -> f64 {
 }
 
 fn random_cov(g: &mut Sm64) -> [[f64; 2]; 2] {
+    // structured special cases: exactly diagonal with unequal / equal variances, identity
+    match g.below(8) {
+        0 => {
+            let s = g.log_uniform(1e-2, 1e2);
+            return [[s * g.log_uniform(1.0, 100.0), 0.0], [0.0, s]];
+        }
+        1 => {
+            let s = g.log_uniform(1e-2, 1e2);
+            return [[s, 0.0], [0.0, s * g.log_uniform(1.0, 100.0)]];
+        }
+        2 => {
+            let s = if g.bool() { 1.0 } else { g.log_uniform(1e-2, 1e2) };
+            return [[s, 0.0], [0.0, s]];
+        }
+        _ => {}
+    }
     // SPD with condition number up to 1e4
     let cond = g.log_uniform(1.0, 1e4);
     let s = g.log_uniform(1e-2, 1e2);
